@@ -17,7 +17,7 @@ TIMEOUT = {'quick': 300, 'thorough': 3000}
 MAXN = {'quick': 5, 'thorough': 6}
 N_RANDOM = {'quick': 2500, 'thorough': 150000}
 RULE = ('cases: (a) exhaustive: n in 2..N systems x priority pattern {all distinct, one tie, pairs of ties, all equal} x actor position x '
-        'action {clean_up self; remove each earlier system; remove each later system; register a new system with priority above all / '
+        'action {clean_up self; remove each earlier system; remove each later system; replace each other system by a different object under the same id (same / top / bottom priority); register a new system with priority above all / '
         'just above the actor / equal / just below / below all} x action timestep {0,1}, one action per case, followed by two quiet '
         'steps that must follow the new set\'s priority order; (b) random: 3-7 systems with 2-3 actors acting in the same timestep. '
         'Oracle per action step: nobody twice; every system registered for the whole step exactly once and mutually in '
@@ -26,7 +26,7 @@ RULE = ('cases: (a) exhaustive: n in 2..N systems x priority pattern {all distin
 ASSUMPTIONS = ['whether a system registered mid-timestep first runs in that timestep or the next is left open',
                'the oracle is computed from the script: a system removed before its turn does not perform its own scripted action']
 FLOORS = {'quick': {'action_steps': 2500, 'act_cleanup': 60, 'act_remove_earlier': 90, 'act_remove_later': 90, 'act_add_higher': 120,
-                    'act_add_equal': 60, 'act_add_lower': 120, 'quiet_steps': 4000, 'two_actor_steps': 1000,
+                    'act_add_equal': 60, 'act_add_lower': 120, 'act_replace_earlier': 200, 'act_replace_later': 200, 'quiet_steps': 4000, 'two_actor_steps': 1000,
                     'reach:Core.SystemManager.execute_systems': 5000, 'reach:Core.System.clean_up': 60},
           'thorough': {'action_steps': 100000, 'two_actor_steps': 80000}}
 EXHAUSTIVE = {}
@@ -36,14 +36,15 @@ def fixtures():
     import ECAgent.Core as core
 
     class Scripted(core.System):
-        def __init__(self, id, model, world, priority=0):
+        def __init__(self, id, model, world, priority=0, uid=None):
             super().__init__(id, model, priority=priority)
             self.world = world
+            self.uid = uid or id          # distinguishes two objects registered under the same id
 
         def execute(self):
             w = self.world
-            w.log.append(self.id)
-            act = w.script.get((self.id, self.model.systems.timestep))
+            w.log.append(self.uid)
+            act = w.script.get((self.uid, self.model.systems.timestep))
             if act is not None:
                 w.perform(self, act)
 
@@ -61,15 +62,19 @@ class World:
         self.seq = 0
         self.changes = []      # (kind, id) performed during the current step, in order
         self.objs = {}
+        self.generation = {}
         for j, p in enumerate(prios):
             self.register(f's{j}', p)
 
     def register(self, sid, prio):
-        o = self.Scripted(sid, self.model, self, priority=prio)
+        self.generation[sid] = self.generation.get(sid, -1) + 1
+        uid = sid if self.generation[sid] == 0 else f'{sid}#v{self.generation[sid] + 1}'
+        o = self.Scripted(sid, self.model, self, priority=prio, uid=uid)
         self.objs[sid] = o
         self.model.systems.add_system(o)
-        self.ref.append({'id': sid, 'prio': prio, 'seq': self.seq})
+        self.ref.append({'id': uid, 'sid': sid, 'prio': prio, 'seq': self.seq})
         self.seq += 1
+        return uid
 
     def order(self, ref=None):
         return [r['id'] for r in sorted(self.ref if ref is None else ref, key=lambda r: (-r['prio'], r['seq']))]
@@ -78,19 +83,23 @@ class World:
         kind = act[0]
         if kind == 'cleanup':
             actor.clean_up()
-            self.ref = [r for r in self.ref if r['id'] != actor.id]
-            self.changes.append(('removed', actor.id, len(self.log)))
-        elif kind == 'remove':
-            target = act[1]
-            if any(r['id'] == target for r in self.ref):
+            self.ref = [r for r in self.ref if r['id'] != actor.uid]
+            self.changes.append(('removed', actor.uid, len(self.log)))
+        elif kind in ('remove', 'replace'):
+            target = act[1]            # a system id; the currently registered object under it is removed
+            cur = [r for r in self.ref if r['sid'] == target]
+            if cur:
                 self.model.systems.remove_system(target)
-                self.ref = [r for r in self.ref if r['id'] != target]
-                self.changes.append(('removed', target, len(self.log)))
+                self.ref = [r for r in self.ref if r['sid'] != target]
+                self.changes.append(('removed', cur[0]['id'], len(self.log)))
+                if kind == 'replace':   # a different object under the same id, registered in the same timestep
+                    uid = self.register(target, act[2])
+                    self.changes.append(('added', uid, len(self.log)))
         elif kind == 'add':
             sid, prio = act[1], act[2]
-            if not any(r['id'] == sid for r in self.ref):
-                self.register(sid, prio)
-                self.changes.append(('added', sid, len(self.log)))
+            if not any(r['sid'] == sid for r in self.ref):
+                uid = self.register(sid, prio)
+                self.changes.append(('added', uid, len(self.log)))
 
     def step(self, what):
         start_ref = list(self.ref)
@@ -117,8 +126,6 @@ class World:
         if got_stayed != stayed:
             raise CaseViolation('systems registered for the whole timestep ran out of priority order', expected=stayed, **detail)
         for i, at in removed_at.items():
-            if i in added:
-                continue        # removed and registered again within the step: open
             if i in log and log.index(i) >= at:
                 raise CaseViolation(f'system {i} ran after it had been removed earlier in the same timestep', **detail)
             if i in start_order and i not in log:
@@ -157,6 +164,8 @@ def exhaustive_cases(maxn):
                     for tgt in range(n):
                         if tgt != actor:
                             yield {'kind': 'ex', 'prios': list(pr), 't': ta, 'actor': actor, 'action': ['remove', tgt]}
+                            for rel in ('same', 'top', 'bottom'):
+                                yield {'kind': 'ex', 'prios': list(pr), 't': ta, 'actor': actor, 'action': ['replace', tgt, rel]}
                     for rel in ('top', 'above', 'equal', 'below', 'bottom'):
                         yield {'kind': 'ex', 'prios': list(pr), 't': ta, 'actor': actor, 'action': ['add', rel]}
 
@@ -179,6 +188,11 @@ def case_ex(ctx, case):
         tgt = f's{a[1]}'
         act = ('remove', tgt)
         ctx.count('act_remove_earlier' if order.index(tgt) < apos else 'act_remove_later')
+    elif a[0] == 'replace':
+        tgt = f's{a[1]}'
+        p = {'same': case['prios'][a[1]], 'top': max(case['prios']) + 1, 'bottom': min(case['prios']) - 1}[a[2]]
+        act = ('replace', tgt, p)
+        ctx.count('act_replace_earlier' if order.index(tgt) < apos else 'act_replace_later')
     else:
         p = new_prio(a[1], case['prios'], case['prios'][case['actor']])
         act = ('add', 'new', p)
@@ -206,11 +220,13 @@ def case_rand(ctx, case):
     actors = rng.sample(range(n), rng.randint(2, min(3, n)))
     desc = []
     for k, ai in enumerate(actors):
-        kind = rng.choice(['cleanup', 'remove', 'remove', 'add', 'add'])
+        kind = rng.choice(['cleanup', 'remove', 'remove', 'add', 'add', 'replace'])
         if kind == 'cleanup':
             act = ('cleanup',)
         elif kind == 'remove':
             act = ('remove', f's{rng.choice([j for j in range(n) if j != ai])}')
+        elif kind == 'replace':
+            act = ('replace', f's{rng.choice([j for j in range(n) if j != ai])}', rng.choice(levels) + rng.choice([-1, 0, 1]))
         else:
             act = ('add', f'new{k}', rng.choice(levels) + rng.choice([-1, 0, 1, 5, -5]))
         w.script[(f's{ai}', ta)] = act
